@@ -148,17 +148,20 @@ func (m *Metadata) Get(key string) ([]byte, bool) {
 func readField(r io.Reader) ([]byte, error) {
 	var lenb [4]byte
 
-	_, err := r.Read(lenb[:])
+	_, err := io.ReadFull(r, lenb[:])
 	if err != nil {
 		return nil, err
 	}
 
-	len := binary.BigEndian.Uint32(lenb[:])
+	flen := binary.BigEndian.Uint32(lenb[:])
 
-	fb := make([]byte, len)
-	_, err = r.Read(fb)
+	// the declared length is not trusted: the buffer grows as data is actually read
+	fb, err := io.ReadAll(io.LimitReader(r, int64(flen)))
 	if err != nil {
 		return nil, err
+	}
+	if uint32(len(fb)) < flen {
+		return nil, io.ErrUnexpectedEOF
 	}
 
 	return fb, nil
